@@ -121,7 +121,8 @@ Fixpoint find_repeated (opt : bmap) (fuel : nat) (st : fr_state) (e : expr) : re
       else
         let st1 := if is_symbol e then mkFR (fr_seen st) (fr_elim st) (hset_add e (fr_excl st)) else st in
         if hset_mem e (fr_seen st1) then
-          Ok (mkFR (fr_seen st1) (hset_add e (fr_elim st1)) (fr_excl st1))
+          (* A Boolean (e.g. the condition of a Piecewise) cannot be replaced by a Symbol *)
+          Ok (mkFR (fr_seen st1) (if is_boolean e then fr_elim st1 else hset_add e (fr_elim st1)) (fr_excl st1))
         else
           let st2 := mkFR (hset_add e (fr_seen st1)) (fr_elim st1) (fr_excl st1) in
           foldM (find_repeated opt f) (get_args (opt_or_self opt e)) st2
